@@ -61,17 +61,22 @@ Variable uw : char -> bool.
 Definition w_variable (indent : bool) (name : str) (v : items) (syn : nsyntax) : option str :=
   option_map (fun t => (if indent then [c_sp; c_sp] else []) ++ name ++ t_sep_eq ++ t) (nwrite_each uw v syn).
 
-Definition w_optvar (name : str) (o : option items) (syn : nsyntax) : list (option str) :=
-  match o with Some v => [w_variable true name v syn] | None => [] end.
-Definition w_flagvar (name : str) (b : bool) : list (option str) :=
-  if b then [w_variable true name [[NStr t_one]] NShell] else [].
+(* the indented bindings _write_rule writes after the rule line: (key, value, syntax) in order *)
+Definition optb (name : str) (o : option items) (syn : nsyntax) : list (str * items * nsyntax) :=
+  match o with Some v => [(name, v, syn)] | None => [] end.
+Definition flagb (name : str) (b : bool) : list (str * items * nsyntax) :=
+  if b then [(name, [[NStr t_one]], NShell)] else [].
+Definition rule_bindings (r : wrule) : list (str * items * nsyntax) :=
+  [(t_command, wr_command r, NShell)]
+  ++ optb t_depfile (wr_depfile r) NShell ++ optb t_deps (wr_deps r) NShell
+  ++ optb t_description (wr_description r) NClean ++ flagb t_generator (wr_generator r)
+  ++ optb t_pool (wr_pool r) NShell ++ flagb t_restat (wr_restat r).
+
+Definition w_bind (b : str * items * nsyntax) : option str := w_variable true (fst (fst b)) (snd (fst b)) (snd b).
 
 (* _write_rule followed by the blank line NinjaFile.write puts after each rule *)
 Definition w_rule (r : wrule) : option (list str) :=
-  opt_all ([Some (t_kw_rule ++ wr_name r); w_variable true t_command (wr_command r) NShell]
-           ++ w_optvar t_depfile (wr_depfile r) NShell ++ w_optvar t_deps (wr_deps r) NShell
-           ++ w_optvar t_description (wr_description r) NClean ++ w_flagvar t_generator (wr_generator r)
-           ++ w_optvar t_pool (wr_pool r) NShell ++ w_flagvar t_restat (wr_restat r) ++ [Some []]).
+  opt_all (Some (t_kw_rule ++ wr_name r) :: map w_bind (rule_bindings r) ++ [Some []]).
 
 (* write_each with a prefix: nothing at all for an empty list *)
 Definition w_each_pre (prefix : str) (its : items) (syn : nsyntax) : option str :=
@@ -84,12 +89,12 @@ Definition w_build_line (b : wbuild) : option str :=
   | _, _, _, _ => None
   end.
 
-Definition w_build_var (p : str * items) : option str :=
-  w_variable true (fst p) (snd p) (if str_eqb (fst p) t_description then NClean else NShell).
+Definition build_binding (p : str * items) : str * items * nsyntax :=
+  (fst p, snd p, if str_eqb (fst p) t_description then NClean else NShell).
 
 (* _write_build followed by the blank line *)
 Definition w_build (b : wbuild) : option (list str) :=
-  opt_all ([w_build_line b] ++ map w_build_var (wb_vars b) ++ [Some []]).
+  opt_all (w_build_line b :: map w_bind (map build_binding (wb_vars b)) ++ [Some []]).
 
 (* one Section of file-level variables, followed by a blank line when it is not empty *)
 Definition w_section (vars : list (str * items)) (syn : nsyntax) : option (list str) :=
